@@ -36,6 +36,7 @@ SPEC = 'ExpectedResponse/MC.tla'
 TRACE = 'ExpectedResponse/ExpectedResponseTrace.tla'
 
 LISTEN_PORT = 61000
+OWN_NAME = 'me'                     # the user name the client logs in with
 PEER_NAMES = {'P1': 'peer-one', 'P2': 'peer-two'}
 
 
@@ -62,6 +63,14 @@ def _families():
              kinds=('str', 'strlist'),
              make=lambda a, b, uid: M.GetUserInterests.Response(username=a, interests=b, hated_interests=[f'h{uid}']),
              cmd=('lit', 'any', lambda a, b, peer: C.GetUserInterestsCommand(a))),
+        # echoes of what we did in a room: the server sends them under the name we are LOGGED IN with, which is
+        # what the command expects in `username` (kind 'ownname': one abstract value is that name)
+        dict(name='RoomChatMessage', cls=M.RoomChatMessage.Response, f=('room', 'username'), kinds=('str', 'ownname'),
+             make=lambda a, b, uid: M.RoomChatMessage.Response(room=a, username=b, message='hello there'),
+             cmd=('lit', 'lit', lambda a, b, peer: C.RoomMessageCommand(a, 'hello there'))),
+        dict(name='RoomTickerAdded', cls=M.RoomTickerAdded.Response, f=('room', 'username'), kinds=('str', 'ownname'),
+             make=lambda a, b, uid: M.RoomTickerAdded.Response(room=a, username=b, ticker='now playing'),
+             cmd=('lit', 'lit', lambda a, b, peer: C.SetRoomTickerCommand(a, 'now playing'))),
         dict(name='CheckPrivileges', cls=M.CheckPrivileges.Response, f=('time_left', None), kinds=('int', None),
              make=lambda a, b, uid: M.CheckPrivileges.Response(time_left=a),
              cmd=('any', 'any', lambda a, b, peer: C.CheckPrivilegesCommand())),
@@ -102,6 +111,7 @@ class Concretisation:
         fam = _families()
         self.rng = rng
         self.family: dict[tuple[str, str], dict] = {}
+        self.other_name: Optional[str] = None
         self.values: dict[tuple[str, str, int], dict[int, Any]] = {}
         regs = [s for step in schedule['steps'] for s in step['stims'] if s[0] == 'reg']
         specs = [r[2] for r in regs]
@@ -143,6 +153,10 @@ class Concretisation:
                 score = 0
                 if f['cmd'] and (f['cmd'][0], f['cmd'][1]) in execs:
                     score += 2
+                    if schedule.get('family_hint') == 'ownname' and 'ownname' in f['kinds']:
+                        score += 2
+                if 'ownname' in f['kinds'] and ('lit', 'lit') not in execs:
+                    continue                     # (only worth it for the command that expects the own name)
                 if not late and f['cmd'] and f['cmd'][0] == 'late':
                     score -= 1
                 cands.append((score, f))
@@ -154,7 +168,15 @@ class Concretisation:
             self.family[key] = f
             for idx in (0, 1):
                 k = f['kinds'][idx]
-                self.values[key + (idx,)] = self._values(k, idx)
+                if k == 'ownname':
+                    # the abstract value the command's caller asks for stands for the name we are logged in with
+                    mine_k = next((int(r[2]['m2'][1]) for r in mine
+                                   if self.api[r[1]] == 'exec' and _shape(r[2]['m2']) == 'lit'), 1)
+                    other = rng.choice(['somebody else', 'Me', 'me2', 'ü'])
+                    self.values[key + (idx,)] = {mine_k: OWN_NAME, 3 - mine_k: other}
+                    self.other_name = other
+                else:
+                    self.values[key + (idx,)] = self._values(k, idx)
         # a caller that should go through execute() but whose message family has no command of its shape
         # makes the same request through create_*_response_future
         for r in regs:
@@ -207,7 +229,7 @@ _SETTINGS: dict[str, Any] = {}
 def _settings(tmpdir):
     """One Settings object per process (building one costs as much as the rest of a run)."""
     if tmpdir not in _SETTINGS:
-        _SETTINGS[tmpdir] = make_settings('me', port=LISTEN_PORT, obfuscated_port=0, download_dir=tmpdir)
+        _SETTINGS[tmpdir] = make_settings(OWN_NAME, port=LISTEN_PORT, obfuscated_port=0, download_dir=tmpdir)
     return _SETTINGS[tmpdir]
 
 
@@ -242,6 +264,7 @@ class Execution:
         self.place_path: dict[int, str] = {}
         self.gave_up: set[int] = set()
         self.probed: set[int] = set()
+        self.edited_credentials = False
         self.hdl_done: set[int] = set()
         self.slowq: dict[str, list] = {}
         self.gates: dict[str, asyncio.Future] = {}
@@ -352,6 +375,11 @@ class Execution:
             self._listener = on_message      # the bus holds listeners weakly
             client.events.register(MessageReceivedEvent, on_message, priority=1000)
 
+            # environment choice: the (mutable) settings are edited while the session lives on - they hold the
+            # credentials for the NEXT login; who we are logged in as does not change
+            if self.conc.other_name is not None and self.rng.random() < 0.6:
+                self.edited_credentials = True
+                client.settings.credentials.username = self.conc.other_name
             self.t0 = loop.time()
             self.finished = loop.create_future()
             self.step_i = 0
@@ -371,6 +399,8 @@ class Execution:
             client.events.unregister(MessageReceivedEvent, on_message)
             await client.stop()
         finally:
+            if self.edited_credentials:
+                self.client.settings.credentials.username = OWN_NAME      # (the Settings object is shared)
             net.uninstall()
 
     async def _peer_reader(self, name, ep, PeerMessage):
@@ -791,7 +821,7 @@ def schedule_of(labels) -> Optional[dict]:
 
 
 def _key(sched: dict) -> str:
-    return repr((sched['steps'], sched.get('due_order'), sched.get('api_mix')))
+    return repr((sched['steps'], sched.get('due_order'), sched.get('api_mix'), sched.get('family_hint')))
 
 
 _SIM_LABEL = re.compile(r'^\\\* <(.*?)(?: line \d+[^>]*)?>$', re.M)
@@ -1027,7 +1057,8 @@ def _from_json(sched):
             s = list(s)
             stims.append(tuple(s))
         steps.append(dict(quiet=bool(st.get('quiet')), stims=stims))
-    return dict(steps=steps, due_order=list(sched.get('due_order', [])), api_mix=sched.get('api_mix'))
+    return dict(steps=steps, due_order=list(sched.get('due_order', [])), api_mix=sched.get('api_mix'),
+                family_hint=sched.get('family_hint'))
 
 
 def _judge(chk: Check, traces, metas):
@@ -1086,6 +1117,7 @@ def _tlc_jobs(chk: Check, thorough: bool):
         jobs['slow2'] = pool.submit(cover_schedules, 'MC_slow2.cfg')
         jobs['time2'] = pool.submit(cover_schedules, 'MC_time2.cfg')
         jobs['place2'] = pool.submit(cover_schedules, 'MC_place2.cfg')
+        jobs['own1'] = pool.submit(cover_schedules, 'MC_own1.cfg')
         if thorough:
             jobs['pair'] = pool.submit(cover_schedules, 'MC_pair.cfg', 3000)
             jobs['sim4'] = pool.submit(simulate_schedules, 'MC_sim4.cfg', 2500, 110, chk.seed + 11, 3000)
@@ -1157,7 +1189,7 @@ def _run(chk: Check, thorough: bool, tmp: str):
             sc = schedule_of([lab for lab, _ in iss.trace])
             if sc:
                 add(sc, 'cex:' + cfg[7:-4].lstrip('_'))
-    for name in ('match', 'pair', 'pair_due', 'pair_cancel', 'slow2', 'time2', 'place2'):
+    for name in ('match', 'pair', 'pair_due', 'pair_cancel', 'slow2', 'time2', 'place2', 'own1'):
         if name not in res:
             continue
         sc_list, r, ns, ne, npaths = res[name]
@@ -1169,7 +1201,9 @@ def _run(chk: Check, thorough: bool, tmp: str):
             pick = sorted(chk.rng.sample(sc_list, cap), key=_key)
         chk.cov[f'graph_{name}']['replayed'] = len(pick)
         for sc in pick:
-            add(sc, 'cover:' + name, api_mix='full' if name == 'match' else None if name == 'time2' else 'fut')
+            if name == 'own1':
+                sc = dict(sc, family_hint='ownname')
+            add(sc, 'cover:' + name, api_mix='full' if name == 'match' else None if name in ('time2', 'own1') else 'fut')
     for name in ('sim3', 'sim4'):
         if name not in res:
             continue
